@@ -75,7 +75,7 @@ PROPS = {
     },
     "C14": {
         "rules": [r_fmt.run_c14, r_cost.run_c14, kind_scope("trainer::model"), r_kind.bins("dictgen-bin"), r_misc.cache, r_misc.idxbase,
-                  r_codec.run_c18, r_feat.csvdefault, r_writedict.run, r_writedict.chartype],
+                  r_codec.run_c18, r_feat.csvdefault, r_writedict.run, r_writedict.chartype, r_writedict.userrows],
         "explanation": "FMT: each generated file's row template (delimiters, column count and "
                        "order, quoted surface first, feature last) matches what the compiler's "
                        "reader does with each column (parse_csv column->field mapping, "
@@ -109,7 +109,7 @@ PROPS = {
     "C18": {
         "rules": [kind_scope("trainer", "mecab"), r_fmt.bigram_files, r_codec.run_c18,
                   r_misc.template_cover, r_misc.regex_trainer, r_misc.csvsplit, r_fmt.csvrow, r_misc.bigram_details_shape,
-                  r_writedict.chartype, r_rewrite.run, r_writedict.run],
+                  r_writedict.chartype, r_rewrite.run, r_writedict.run, r_writedict.userrows],
         "explanation": "KIND over the trainer: unigram/left/right templates, id tables and "
                        "next-id counters are never mixed (same-family rule on "
                        "extract_feature_ids), extract_left/right results reach the matching "
@@ -510,8 +510,8 @@ _ADDED2 = {
     "C07": "ACCUM (portable and AVX2 builds): accumulate_cost pairs keys1[i] with keys2[i] through plain zips (no skip/rev/take), starts at zero and only adds lookup results; the AVX2 build sums lanes 0..7 once each. SCORERCHK (AVX2) also requires base = bases[key1] gathered under key1 < bases_len, zero for masked-out lanes and the 4-byte gather scale. LANES as for C05. CSVROW as for C17 (cells of bigram.right/left lines). KIND over compile's main: the readers opened from --bigram-right-in / --bigram-left-in reach the builder parameters of their own side.",
     "C06": "KIND over map's main: the list read from *.lmap is the left mapping argument and *.rmap the right one.",
     "C13": "KIND over map's main as for C06 (the files reorder writes are consumed on their own side).",
-    "C14": "QUOTER also requires the input to advance by the consumed count nin and each write to be cut at the produced count nout. KIND over dictgen's main: writers created with the .left / .right suffixes reach write_bigram_details' parameters of their own side.",
-    "C17": "CSVROW: parse_csv_row appends every decoded chunk (OutputFull included), emits the accumulated cell on every Field/InputEmpty/End outcome - the empty last cell too - and advances the input by the consumed count.",
+    "C14": "USERROW: every user row read by read_user_lexicon passes through extract_feature_set and add_feature_set in its own loop iteration. QUOTER also requires the input to advance by the consumed count nin and each write to be cut at the produced count nout. KIND over dictgen's main: writers created with the .left / .right suffixes reach write_bigram_details' parameters of their own side.",
+    "C17": "RULECELLS: parse_rewrite_rule returns every comma-separated cell of both columns (nothing is popped, trimmed or filtered). CSVROW: parse_csv_row appends every decoded chunk (OutputFull included), emits the accumulated cell on every Field/InputEmpty/End outcome - the empty last cell too - and advances the input by the consumed count.",
     "C18": "LABELBASE (the C14 rule): the ids written for lexicon, unknown and user rows are those of the feature set the trainer's label names - user rows through the stored label. CSVROW as for C17 (template column numbers). FIRSTMATCH-* (the C17 rules): templates expand the *rewritten* features, so a rewriter that applies a later rule changes every expansion.",
     "C19": "CSVDEFAULT: the lexicon parser keeps csv-core's default dialect (a changed terminator leaves a CR at the end of every feature, which the corpus reader then strips - tokens no longer round-trip). ERRPROP also covers discarding function items handed to adaptors (`map_while(Result::ok)`) and flattened io::Result iterators.",
     "C20": "CSVROW as for C17 (the id lines of left-id.def / right-id.def).",
